@@ -5,9 +5,18 @@ import random
 from typing import Any, Dict, List, Optional
 
 from refs import codecs
-from .tcp_gen import BODY_EXCEPTION_KINDS, SCRIPTS, base_config, uidify
+from .tcp_gen import BODY_EXCEPTION_KINDS, SCRIPTS, uidify
+from .tcp_gen import base_config as _base_config
 
 ALL_PORTS = [20002, 10002, 20003, 10003]
+SOCKERRS = ["refused", "refused", "hostunreach", "netunreach", "msgsize", "perm", "netdown"]
+CB_KINDS = ["function", "function", "function", "partial", "method", "callable", "lambda"]
+
+
+def base_config(rng):
+    cfg = _base_config(rng)
+    cfg["cb_kind"] = rng.choice(CB_KINDS)      # what kind of callable the user handed to the bridge
+    return cfg
 MODELS = list(codecs.MODELS)
 
 
@@ -252,6 +261,10 @@ def gen_c06(rng, index: int, systematic: bool) -> Dict[str, Any]:
             else:
                 items.append(junk_dgram(rng, tag, rng.choice(["foreign", "truncated", "extended", "wrong_magic", "empty",
                                                               "truncated", "extended", "selfdescribing", "selfdescribing"])))
+            if rng.random() < 0.04:
+                # far larger than any broadcast: still just "any other byte string"
+                big = rng.choice([441, 512, 513, 1024, 1472, 1500, 4096, 9000, 65507])
+                items.append(rng.choice([b"\xfe\xf0", b""]) + rng.randbytes(big - 2))
             if rng.random() < 0.2:
                 # the very same datagram again (a device re-broadcasting): whatever the first one caused, the
                 # second must cause too
@@ -329,7 +342,7 @@ def gen_c07(rng, long: bool = False) -> Dict[str, Any]:
             m.pop("drop", None)
             steps.append(m)           # devices announce on the legacy and the new port at once
         if rng.random() < 0.07:
-            steps.append({"kind": "sockerr", "port": rng.choice(ports), "delay": round(rng.uniform(0, 0.3), 6)})
+            steps.append({"kind": "sockerr", "port": rng.choice(ports), "delay": round(rng.uniform(0, 0.3), 6), "err": rng.choice(SOCKERRS)})
         if not burst and rng.random() < 0.5:
             steps.append({"kind": "sleep", "s": rng.choice([0.0, 0.000001, 0.001, 0.05, 1.0])})
     return {"engine": "udp", "config": cfg, "steps": uidify(steps)}
@@ -475,7 +488,7 @@ def gen_c17(rng, index: Optional[int] = None, maxlen: int = 4, long: bool = Fals
         elif r < 0.75:
             send(ports, late=rng.random() < 0.3)
         elif r < 0.8 and rng.random() < 0.3:
-            steps.append({"kind": "sockerr", "port": rng.choice(ports), "delay": round(rng.uniform(0, 0.01), 6)})
+            steps.append({"kind": "sockerr", "port": rng.choice(ports), "delay": round(rng.uniform(0, 0.01), 6), "err": rng.choice(SOCKERRS)})
             steps.append({"kind": "sleep", "s": 0.05})
         elif r < 0.88 and not running:
             p = rng.choice(ports)
